@@ -10,6 +10,9 @@
 //	R3 map order  range <package map | map field> -> range verifOrdered("<site>", <expr>); sync.Map -> verifSyncMap (Range order)
 //	R4 yields     first statement of every func   -> verifYield(<n>)   (optional)
 //	R6 randomness math/rand and math/rand/v2 package-level functions -> verifRand / verifRand2 (seeded per episode)
+//	R7 channels   <-ch, ch <- v, close(ch), select without default, sync.Cond, sync.WaitGroup
+//	              -> verifRecv / verifSend / verifClose, a polling select, verifCond, verifWaitGroup: a task that
+//	              would block tells the scheduler (same hook as R5) instead of blocking the only running goroutine
 //	R5 locks      sync.Mutex / sync.RWMutex       -> verifMutex / verifRWMutex (TryLock loop that reports
 //	                                                 "blocked" to the scheduler instead of blocking the
 //	                                                 one running goroutine; no site on the pinned tree)
@@ -57,7 +60,7 @@ type edit struct {
 // Build parses the tree and writes the overlay. A rule that finds no site is
 // not an error (the check then runs with fewer seams and says so).
 func Build(opt Options) (*Report, error) {
-	rep := &Report{Seams: map[string]int{"R1": 0, "R2": 0, "R3": 0, "R4": 0, "R5": 0, "R6": 0}, Replaced: map[string]string{}}
+	rep := &Report{Seams: map[string]int{"R1": 0, "R2": 0, "R3": 0, "R4": 0, "R5": 0, "R6": 0, "R7": 0}, Replaced: map[string]string{}}
 	if err := os.MkdirAll(opt.OutDir, 0o755); err != nil {
 		return nil, err
 	}
@@ -148,6 +151,7 @@ func Build(opt Options) (*Report, error) {
 	}
 
 	yieldN := 0
+	selN := 0 // numbering of the rewritten select statements (labels are per function, the number only has to differ)
 	embedded := map[string]bool{}
 	r5done := map[*ast.SelectorExpr]bool{}
 	topNames := map[string]bool{} // package-level identifiers (an alias named Mutex must not collide)
@@ -266,8 +270,73 @@ func Build(opt Options) (*Report, error) {
 			} else {
 				curFunc = "(decl)"
 			}
+			// R7: the communication of a select case is handled with its select statement, not on its own
+			inComm := map[ast.Node]bool{}
+			twoValue := map[ast.Node]bool{} // receive expressions whose second result is used
 			ast.Inspect(d, func(n ast.Node) bool {
 				switch x := n.(type) {
+				case *ast.CommClause:
+					if x.Comm != nil {
+						ast.Inspect(x.Comm, func(m ast.Node) bool {
+							switch m.(type) {
+							case *ast.UnaryExpr, *ast.SendStmt:
+								inComm[m] = true
+							}
+							return true
+						})
+					}
+				case *ast.AssignStmt:
+					if len(x.Lhs) == 2 && len(x.Rhs) == 1 {
+						twoValue[x.Rhs[0]] = true
+					}
+				case *ast.ValueSpec:
+					if len(x.Names) == 2 && len(x.Values) == 1 {
+						twoValue[x.Values[0]] = true
+					}
+				}
+				return true
+			})
+			r7 := func(what string, pos token.Pos) {
+				rep.Seams["R7"]++
+				rep.Sites = append(rep.Sites, fmt.Sprintf("R7 %s:%d %s in %s", base, fset.Position(pos).Line, what, curFunc))
+			}
+			skipR7 := strings.HasPrefix(curFunc, "verif")
+			ast.Inspect(d, func(n ast.Node) bool {
+				switch x := n.(type) {
+				case *ast.UnaryExpr:
+					// R7: a receive outside a select
+					if x.Op == token.ARROW && !inComm[x] && !skipR7 {
+						fn := "verifRecv("
+						if twoValue[x] {
+							fn = "verifRecv2("
+						}
+						edits = append(edits, edit{off(x.OpPos), 2, fn}, edit{off(x.End()), 0, ")"})
+						r7("receive", x.Pos())
+					}
+				case *ast.SendStmt:
+					if !inComm[x] && !skipR7 {
+						edits = append(edits, edit{off(x.Pos()), 0, "verifSend("}, edit{off(x.Arrow), 2, ","}, edit{off(x.End()), 0, ")"})
+						r7("send", x.Pos())
+					}
+				case *ast.CallExpr:
+					if id, ok := x.Fun.(*ast.Ident); ok && id.Name == "close" && id.Obj == nil && len(x.Args) == 1 && !skipR7 {
+						edits = append(edits, edit{off(id.Pos()), 5, "verifClose"})
+						r7("close", x.Pos())
+					}
+				case *ast.SelectStmt:
+					// R7: a select that may block polls instead, telling the scheduler between two rounds
+					hasDefault := false
+					for _, c := range x.Body.List {
+						if cc, ok := c.(*ast.CommClause); ok && cc.Comm == nil {
+							hasDefault = true
+						}
+					}
+					if !hasDefault && len(x.Body.List) > 0 && !skipR7 {
+						selN++
+						edits = append(edits, edit{off(x.Select), 0, fmt.Sprintf("verifSel%d: ", selN)},
+							edit{off(x.Body.Rbrace), 0, fmt.Sprintf("default: verifSelectBlocked(); goto verifSel%d\n", selN)})
+						r7("select", x.Pos())
+					}
 				case *ast.Field:
 					// R5, embedded form: struct{ sync.Mutex } keeps its field name through an alias
 					if len(x.Names) == 0 && syncAlias != "" {
@@ -313,6 +382,16 @@ func Build(opt Options) (*Report, error) {
 							edits = append(edits, edit{off(x.Pos()), off(x.End()) - off(x.Pos()), "verifSyncMap"})
 							rep.Seams["R3"]++
 							rep.Sites = append(rep.Sites, fmt.Sprintf("R3 %s:%d sync.Map in %s", base, fset.Position(x.Pos()).Line, curFunc))
+							usedR5 = true
+						}
+						return true
+					}
+					// R7: sync.Cond, sync.NewCond, sync.WaitGroup -> waits the scheduler sees
+					if syncAlias != "" && (x.Sel.Name == "Cond" || x.Sel.Name == "NewCond" || x.Sel.Name == "WaitGroup") {
+						if id, ok := x.X.(*ast.Ident); ok && id.Name == syncAlias && id.Obj == nil {
+							edits = append(edits, edit{off(x.Pos()), off(x.End()) - off(x.Pos()), "verif" + x.Sel.Name})
+							rep.Seams["R7"]++
+							rep.Sites = append(rep.Sites, fmt.Sprintf("R7 %s:%d sync.%s in %s", base, fset.Position(x.Pos()).Line, x.Sel.Name, curFunc))
 							usedR5 = true
 						}
 						return true
@@ -687,6 +766,187 @@ type rlocker struct{ m *verifRWMutex }
 
 func (r rlocker) Lock()   { r.m.RLock() }
 func (r rlocker) Unlock() { r.m.RUnlock() }
+
+// Rule R7: channel operations, condition variables and wait groups of package slog. A task that would block
+// reports to the scheduler through the lock seam (key = the channel) and tries again when it is run again; the
+// real operation is still the one that transfers the value (and carries the happens-before edge).
+
+// (keys of this rule are odd, lock keys are addresses and even: the scheduler tells them apart by that)
+func verifChanKey[T any](ch <-chan T) uintptr { return *(*uintptr)(unsafe.Pointer(&ch)) | 1 }
+
+func verifRecv[T any](ch <-chan T) T { v, _ := verifRecv2(ch); return v }
+
+func verifRecv2[T any](ch <-chan T) (v T, ok bool) {
+	h := VerifLock
+	if h == nil || ch == nil {
+		v, ok = <-ch
+		return
+	}
+	key := verifChanKey(ch)
+	for {
+		select {
+		case v, ok = <-ch:
+			h.Released(key)
+			return
+		default:
+		}
+		if !h.Blocked(key) {
+			v, ok = <-ch // nobody the scheduler knows can help: block for real
+			h.Released(key)
+			return
+		}
+	}
+}
+
+func verifSend[T any](ch chan<- T, v T) {
+	h := VerifLock
+	if h == nil || ch == nil {
+		ch <- v
+		return
+	}
+	key := *(*uintptr)(unsafe.Pointer(&ch)) | 1
+	select {
+	case ch <- v:
+		h.Released(key)
+		return
+	default:
+	}
+	// it would block. Receivers poll, so a send must really wait in the channel for them to find it: a helper
+	// goroutine does, the task waits for the helper under the scheduler's eyes
+	done := make(chan any, 1)
+	go func() {
+		defer func() { done <- recover() }()
+		ch <- v
+	}()
+	for {
+		select {
+		case p := <-done:
+			h.Released(key)
+			if p != nil {
+				panic(p)
+			}
+			return
+		default:
+		}
+		if !h.Blocked(key) {
+			p := <-done
+			h.Released(key)
+			if p != nil {
+				panic(p)
+			}
+			return
+		}
+	}
+}
+
+func verifClose[T any](ch chan<- T) {
+	close(ch)
+	if h := VerifLock; h != nil {
+		h.Released(*(*uintptr)(unsafe.Pointer(&ch)) | 1)
+	}
+}
+
+// verifSelectKey is what a task in a polling select waits for: any channel operation wakes it.
+const verifSelectKey = ^uintptr(0)
+
+func verifSelectBlocked() {
+	if h := VerifLock; h != nil && h.Blocked(verifSelectKey) {
+		return
+	}
+	time.Sleep(50 * time.Microsecond) // nobody the scheduler knows can help: poll in real time
+}
+
+type verifCond struct {
+	L    sync.Locker
+	once sync.Once
+	c    *sync.Cond
+	gen  uint64
+	mu   sync.Mutex
+}
+
+func verifNewCond(l sync.Locker) *verifCond { return &verifCond{L: l} }
+
+func (c *verifCond) real() *sync.Cond {
+	c.once.Do(func() { c.c = sync.NewCond(c.L) })
+	return c.c
+}
+
+func (c *verifCond) Wait() {
+	h := VerifLock
+	if h == nil {
+		c.real().Wait()
+		return
+	}
+	key := uintptr(unsafe.Pointer(c)) | 1
+	c.mu.Lock()
+	g := c.gen
+	c.mu.Unlock()
+	c.L.Unlock()
+	for {
+		c.mu.Lock()
+		now := c.gen
+		c.mu.Unlock()
+		if now != g {
+			break
+		}
+		if !h.Blocked(key) {
+			time.Sleep(50 * time.Microsecond)
+		}
+	}
+	c.L.Lock()
+}
+
+func (c *verifCond) wake() {
+	c.mu.Lock()
+	c.gen++
+	c.mu.Unlock()
+	if h := VerifLock; h != nil {
+		h.Released(uintptr(unsafe.Pointer(c)) | 1)
+	}
+}
+
+// (Signal wakes every waiter: a spurious wake-up is allowed by sync.Cond's contract, callers re-check in a loop)
+func (c *verifCond) Signal()    { c.wake(); c.real().Signal() }
+func (c *verifCond) Broadcast() { c.wake(); c.real().Broadcast() }
+
+type verifWaitGroup struct {
+	wg sync.WaitGroup
+	mu sync.Mutex
+	n  int
+}
+
+func (w *verifWaitGroup) Add(d int) {
+	w.mu.Lock()
+	w.n += d
+	z := w.n == 0
+	w.mu.Unlock()
+	w.wg.Add(d)
+	if h := VerifLock; z && h != nil {
+		h.Released(uintptr(unsafe.Pointer(w)) | 1)
+	}
+}
+
+func (w *verifWaitGroup) Done() { w.Add(-1) }
+
+func (w *verifWaitGroup) Wait() {
+	h := VerifLock
+	if h == nil {
+		w.wg.Wait()
+		return
+	}
+	for {
+		w.mu.Lock()
+		z := w.n <= 0
+		w.mu.Unlock()
+		if z {
+			return
+		}
+		if !h.Blocked(uintptr(unsafe.Pointer(w)) | 1) {
+			w.wg.Wait()
+			return
+		}
+	}
+}
 
 // verifSyncMap is sync.Map with a Range order the simulator decides (same hook as rule R3).
 type verifSyncMap struct{ m sync.Map }
